@@ -271,7 +271,8 @@ def run(prog, chk):
                 dest.add(path(strip(a.get("e"))))
     cleans = [(b.id, i) for (b, i, r, c) in cl.calls_to("cif_value_clean") if c.get("args") and path(strip(c["args"][0])) in dest] \
         + [(b.id, i) for (b, i, r, c) in cl.calls_to("cif_value_create")]
-    stores = [(b.id, i, a) for (b, i, r, a) in cl.eval_sites("asg") if any((path(strip(a.get("lhs"))) or "").startswith(d + "->") for d in dest)]
+    stores = [(b.id, i, a) for (b, i, r, a) in cl.eval_sites("asg")
+              if any((path(strip(a.get("lhs"))) or "").startswith(d + "->") or (path(strip(a.get("lhs"))) or "") == "*" + d for d in dest)]
     helper_calls = [(b.id, i, c) for (b, i, r, c) in cl.calls()
                     if ((c.get("callee") or "").startswith("cif_value_clone_") and any(re.match(r"^[\(&\*]*(%s)->" % "|".join(map(re.escape, dest)), show(a)) for a in c.get("args", [])[1:]))
                     or (c.get("callee") in ("memcpy", "memmove") and c.get("args") and path(strip(c["args"][0])) in dest)] if dest else []
